@@ -28,6 +28,9 @@ def modes : List Mode := []
 /-- Stateful groups, selected by a first line `#mode <name>`. -/
 def modes : List Mode := []
   ++ [Drv.TracksV1.mode]
+  ++ [Drv.CratesV1.mode]
+  ++ [Drv.CratesV1Oracle.mode]
+  ++ [Drv.CratesV1Explore.mode]
 
 def dispatch (line : String) : String :=
   match tokens line with
